@@ -27,11 +27,10 @@ func (f *fakeServerComm) LocalAddr() net.Addr                 { return memAddr("
 
 const testDomain = "example.org"
 
-type addrN int
-
-func (a addrN) Network() string { return "udp" }
-func (a addrN) String() string {
-	return "10.0.0." + string(rune('0'+int(a)/10)) + string(rune('0'+int(a)%10)) + ":53"
+// addrN: the n-th peer address, of the type a real transport reports. Addresses n and n+50 are the same host with another
+// source port (another process behind the same NAT or on the same machine).
+func addrN(n int64) net.Addr {
+	return &net.UDPAddr{IP: net.IPv4(10, 0, 0, byte(1+n%50)), Port: 5300 + int(n/50)}
 }
 
 // wire packs and unpacks a message, as a real transport would.
